@@ -8,8 +8,16 @@
   are in range (`wf`), `sig` any result-class shape (void or not, any list of declared
   exception ids, gaps allowed), `r` any reply the server side can produce, `ps` any chunking
   of the byte stream into non-empty pieces.  No bound on sizes or depths.
+
+  Second component (Model/ThriftShared.lean, Adapter/ThriftShared.lean): one serializer behind
+  several connections, several calls open at once.  `cfg` is any interface (any list of result
+  class shapes with distinct method names), `ops` any interleaving of the operations of any
+  number of calls (call k sent on connection c / answered / the next n bytes of its reply
+  delivered / its connection closed by the server).  No bound on the number of calls,
+  connections or pieces.
 -/
 import ScalesModel.Proofs.ThriftCodecLemmas
+import ScalesModel.Proofs.ThriftSharedLemmas
 namespace Scales.ThriftCodec
 
 /-- The frame is a 4-byte prefix followed by the payload, and the prefix read as a signed
@@ -133,11 +141,159 @@ theorem C14_truncated_reply_is_eof (sig : Sig) (payload : Bytes) (k : Nat) (ps :
 /-- The executable specification the harness evaluates on the implementation's observations
     holds of the model's own observations, for every method shape and every operation list
     within the hypotheses `wf` (values in range, replies a generated Processor can produce). -/
-theorem C14_model_satisfies_spec (cfg : Cfg) (ops : List Op) (h : wf cfg ops = true) :
+theorem C14_codec_model_satisfies_spec (cfg : Cfg) (ops : List Op) (h : wf cfg ops = true) :
     spec cfg (comp.modelTrace cfg ops) = .ok := by
   simp only [wf, Bool.and_eq_true, List.all_eq_true] at h
   obtain ⟨hcfg, hops⟩ := h
   exact specGo_trace cfg hcfg ops 0 0 hops
+
+/-! ### one serializer, several connections, several calls open at once -/
+
+open Scales.ThriftShared in
+/-- Non-interference, over all interleavings: the operations of call `k` and what is observed
+    at them (the bytes sent for it, the reply frame, what its caller has got after every
+    delivery) inside ANY history — whatever other calls are made, answered, delivered or cut off
+    in between — are exactly the history of the operations of call `k` run alone.
+    Unconditional: it holds for every interface and every operation list. -/
+theorem C14_calls_independent (cfg : ThriftShared.Cfg) (ops : List ThriftShared.Op) (k : Nat) :
+    (ThriftShared.comp.modelTrace cfg ops).filter (fun p => decide (p.1.id = k))
+      = ThriftShared.comp.modelTrace cfg (ops.filter (fun op => decide (op.id = k))) := by
+  show (ThriftShared.comp.trace cfg ThriftShared.St.init ops).filter _
+    = ThriftShared.comp.trace cfg ThriftShared.St.init _
+  rw [ThriftShared.comp_trace_eq, ThriftShared.comp_trace_eq]
+  exact ThriftShared.run_filter cfg k ops _ _ rfl
+
+/-- The result class a reply is decided with is named by the reply: for the reply message the
+    server wrote for method number `m` of an interface with distinct method names, the shared
+    serializer's decision is the decision with the result class of method `m` — `expected`. -/
+theorem C14_result_class_named_by_reply (cfg : ThriftShared.Cfg) (m : Nat) (sig : Sig) (r : Reply)
+    (hd : ThriftShared.distinctNames cfg = true) (hm : cfg[m]? = some sig) :
+    ThriftShared.decideI cfg (replyMsg sig.name r) = expected sig r :=
+  ThriftShared.decideI_replyMsg cfg m sig r hd hm
+
+/-- The reply decision under interleaving.  In any history whose operations of call `k` are:
+    the call of method `m` (on any connection, with any arguments), the server's answer `r`,
+    and deliveries of sizes covering the whole reply frame — with the operations of any other
+    calls anywhere in between — the last thing observed for call `k` is that its caller has got
+    `expected sig r`: the return value for a normal reply, the library's error carrying the
+    declared / application exception, `None` for a void result. -/
+theorem C14_interleaved_reply_decision (cfg : ThriftShared.Cfg) (ops : List ThriftShared.Op)
+    (k m c : Nat) (args : TFields) (r : Reply) (sizes : List Nat) (sig : Sig)
+    (hcfg : ThriftShared.cfgOk cfg = true) (hm : cfg[m]? = some sig)
+    (hproj : ops.filter (fun op => decide (op.id = k))
+      = .call k m c args :: .answer k r :: sizes.map (.chunk k))
+    (hw : replyWf r = true) (hl : (encMsg (replyMsg sig.name r)).length < 2147483648)
+    (hcov : (replyBytes sig.name r).length ≤ listSum sizes) :
+    ∃ n, ((ThriftShared.comp.modelTrace cfg ops).filter (fun p => decide (p.1.id = k))).getLast?
+      = some (.chunk k n, .out (some (expected sig r))) := by
+  rw [C14_calls_independent, hproj]
+  show ∃ n, (ThriftShared.comp.trace cfg ThriftShared.St.init _).getLast? = _
+  rw [ThriftShared.comp_trace_eq]
+  simp only [ThriftShared.cfgOk, Bool.and_eq_true, List.all_eq_true, decide_eq_true_eq] at hcfg
+  have hn : sig.name.length < 2147483648 := hcfg.1 sig (List.mem_of_getElem? hm)
+  have hne : sizes ≠ [] := by
+    intro e
+    have h4 : (frame (encMsg (replyMsg sig.name r))).length = (encMsg (replyMsg sig.name r)).length + 4 :=
+      (frame_prefix _ hl).2.2.1
+    have h5 : (replyBytes sig.name r).length = (frame (encMsg (replyMsg sig.name r))).length := rfl
+    rw [e] at hcov; simp only [listSum] at hcov; omega
+  obtain ⟨o1, o2, s2, hrun, hs2⟩ := ThriftShared.run_alone_prefix cfg k m c args r sig hm (sizes.map (.chunk k))
+  obtain ⟨n, hn'⟩ := ThriftShared.run_chunks_last cfg k sizes s2 _ hs2 rfl hne
+  refine ⟨n, ?_⟩
+  have hne2 : ThriftShared.run cfg s2 (sizes.map (.chunk k)) ≠ [] := by
+    intro e; rw [e] at hn'; simp at hn'
+  rw [hrun, List.getLast?_cons_of_ne_nil (by simp), List.getLast?_cons_of_ne_nil hne2, hn']
+  simp only [ThriftShared.Call.outcome, ThriftShared.Call.pieces, ThriftShared.Call.stream, hm, List.nil_append]
+  rw [ThriftShared.sharedOutcome_splitBy cfg m sig r sizes false hcfg.2 hm hn hw hl]
+  have hflat : (splitBy sizes (replyBytes sig.name r)).flatten = replyBytes sig.name r ++ [] := by
+    rw [splitBy_flatten_full _ _ hcov]; simp
+  have hc : clientOutcome sig (splitBy sizes (replyBytes sig.name r)) = expected sig r := by
+    rw [clientOutcome_eq_stream sig _ (splitBy_nonempty _ _), hflat]
+    exact streamOutcome_full sig r [] hn hw hl
+  simp [hcov, hc]
+
+/-- Nothing is reported early: under the same conditions but with deliveries that do NOT cover
+    the reply frame (and the connection still up), the caller of call `k` is still pending after
+    the last delivery. -/
+theorem C14_pending_until_complete (cfg : ThriftShared.Cfg) (ops : List ThriftShared.Op)
+    (k m c : Nat) (args : TFields) (r : Reply) (sizes : List Nat) (sig : Sig)
+    (hcfg : ThriftShared.cfgOk cfg = true) (hm : cfg[m]? = some sig)
+    (hproj : ops.filter (fun op => decide (op.id = k))
+      = .call k m c args :: .answer k r :: sizes.map (.chunk k))
+    (hw : replyWf r = true) (hl : (encMsg (replyMsg sig.name r)).length < 2147483648)
+    (hne : sizes ≠ []) (hshort : listSum sizes < (replyBytes sig.name r).length) :
+    ∃ n, ((ThriftShared.comp.modelTrace cfg ops).filter (fun p => decide (p.1.id = k))).getLast?
+      = some (.chunk k n, .out none) := by
+  rw [C14_calls_independent, hproj]
+  show ∃ n, (ThriftShared.comp.trace cfg ThriftShared.St.init _).getLast? = _
+  rw [ThriftShared.comp_trace_eq]
+  simp only [ThriftShared.cfgOk, Bool.and_eq_true, List.all_eq_true, decide_eq_true_eq] at hcfg
+  have hn : sig.name.length < 2147483648 := hcfg.1 sig (List.mem_of_getElem? hm)
+  obtain ⟨o1, o2, s2, hrun, hs2⟩ := ThriftShared.run_alone_prefix cfg k m c args r sig hm (sizes.map (.chunk k))
+  obtain ⟨n, hn'⟩ := ThriftShared.run_chunks_last cfg k sizes s2 _ hs2 rfl hne
+  refine ⟨n, ?_⟩
+  have hne2 : ThriftShared.run cfg s2 (sizes.map (.chunk k)) ≠ [] := by
+    intro e; rw [e] at hn'; simp at hn'
+  rw [hrun, List.getLast?_cons_of_ne_nil (by simp), List.getLast?_cons_of_ne_nil hne2, hn']
+  simp only [ThriftShared.Call.outcome, ThriftShared.Call.pieces, ThriftShared.Call.stream, hm, List.nil_append]
+  rw [ThriftShared.sharedOutcome_splitBy cfg m sig r sizes false hcfg.2 hm hn hw hl]
+  have : ¬ ((replyBytes sig.name r).length ≤ listSum sizes) := by omega
+  simp [this]
+
+/-- The outcome of a call among others equals the outcome of the same call in the
+    one-call-at-a-time component.  In any history whose operations of call `k` are: the call
+    of method `m`, the answer `r`, deliveries of ANY sizes (covering the frame or not), and
+    finally the server closing the connection, the last observation for call `k` is the very
+    outcome the single-call model (`step` of this file's first component, operation
+    `reply r sizes`) reports for method `m` alone on one connection. -/
+theorem C14_interleaved_outcome_is_single_call (cfg : ThriftShared.Cfg) (ops : List ThriftShared.Op)
+    (k m c : Nat) (args : TFields) (r : Reply) (sizes : List Nat) (sig : Sig) (st : St)
+    (hcfg : ThriftShared.cfgOk cfg = true) (hm : cfg[m]? = some sig)
+    (hproj : ops.filter (fun op => decide (op.id = k))
+      = .call k m c args :: .answer k r :: (sizes.map (.chunk k) ++ [.close k]))
+    (hw : replyWf r = true) (hl : (encMsg (replyMsg sig.name r)).length < 2147483648) :
+    ∃ out, (step sig st (.reply r sizes)).2 = .reply (replyBytes sig.name r) out ∧
+      ((ThriftShared.comp.modelTrace cfg ops).filter (fun p => decide (p.1.id = k))).getLast?
+        = some (.close k, .out (some out)) := by
+  refine ⟨clientOutcome sig (splitBy sizes (replyBytes sig.name r)), rfl, ?_⟩
+  rw [C14_calls_independent, hproj]
+  show (ThriftShared.comp.trace cfg ThriftShared.St.init _).getLast? = _
+  rw [ThriftShared.comp_trace_eq]
+  simp only [ThriftShared.cfgOk, Bool.and_eq_true, List.all_eq_true, decide_eq_true_eq] at hcfg
+  have hn : sig.name.length < 2147483648 := hcfg.1 sig (List.mem_of_getElem? hm)
+  obtain ⟨o1, o2, s2, hrun, hs2⟩ :=
+    ThriftShared.run_alone_prefix cfg k m c args r sig hm (sizes.map (.chunk k) ++ [.close k])
+  have hs3 := ThriftShared.exec_chunks cfg k sizes s2 _ hs2 rfl
+  rw [hrun, ThriftShared.run_append]
+  have hlast : ∀ (a b : ThriftShared.Op × ThriftShared.Obs) (L : List (ThriftShared.Op × ThriftShared.Obs))
+      (y : ThriftShared.Op × ThriftShared.Obs), (a :: b :: (L ++ [y])).getLast? = some y := by
+    intro a b L y
+    rw [← List.cons_append, ← List.cons_append, List.getLast?_concat]
+  simp only [ThriftShared.run]
+  rw [hlast]
+  simp only [ThriftShared.step, ThriftShared.Op.id, hs3, ThriftShared.obsOf, ThriftShared.Call.close,
+    ThriftShared.Call.outcome, ThriftShared.Call.pieces, ThriftShared.Call.stream, hm, List.nil_append]
+  rw [ThriftShared.sharedOutcome_splitBy cfg m sig r sizes true hcfg.2 hm hn hw hl]
+  simp
+
+/-- The executable specification of the second component holds of the model's own
+    observations, for every interface with distinct method names and every interleaving of
+    operations within the hypotheses `wf`. -/
+theorem C14_shared_model_satisfies_spec (cfg : ThriftShared.Cfg) (ops : List ThriftShared.Op)
+    (h : ThriftShared.wf cfg ops = true) :
+    ThriftShared.spec cfg (ThriftShared.comp.modelTrace cfg ops) = .ok := by
+  simp only [ThriftShared.wf, Bool.and_eq_true] at h
+  show ThriftShared.specGo cfg ThriftShared.St.init 0 (ThriftShared.comp.trace cfg ThriftShared.St.init ops) = .ok
+  rw [ThriftShared.comp_trace_eq]
+  exact ThriftShared.specGo_run cfg h.1.1 ops _ 0 (ThriftShared.inv_init cfg) h.1.2
+
+/-- Both components: the predicate the harness evaluates on the implementation's observations
+    is the one the theorems are about. -/
+theorem C14_model_satisfies_spec :
+    (∀ (cfg : Cfg) (ops : List Op), wf cfg ops = true → spec cfg (comp.modelTrace cfg ops) = .ok) ∧
+    (∀ (cfg : ThriftShared.Cfg) (ops : List ThriftShared.Op), ThriftShared.wf cfg ops = true →
+      ThriftShared.spec cfg (ThriftShared.comp.modelTrace cfg ops) = .ok) :=
+  ⟨C14_codec_model_satisfies_spec, C14_shared_model_satisfies_spec⟩
 
 /-! ### the hypotheses are satisfiable; concrete instances -/
 
@@ -158,5 +314,22 @@ example : wf ⟨[102], true, [1, 3]⟩
     [.call (.cons 1 (.str [195, 169]) (.cons 2 (.i64 (-9223372036854775808)) .nil)),
      .reply (.result (.cons 3 (.struct (.cons 1 (.i32 (-7)) .nil)) .nil)) [2, 100],
      .reply (.app 6 (some [111])) [1, 1, 1]] = true := by decide
+
+/- two calls of different methods open at once on two connections, the later one answered
+    and delivered first, the earlier one's reply cut inside the length prefix: inside `wf` -/
+example : ThriftShared.wf [⟨[112], false, []⟩, ⟨[102], true, [1, 3]⟩]
+    [.call 0 1 0 (.cons 1 (.str [195, 169]) .nil), .call 1 0 1 .nil,
+     .answer 1 (.result .nil), .chunk 1 100,
+     .answer 0 (.result (.cons 0 (.i32 (-7)) .nil)), .chunk 0 3, .call 2 0 1 .nil, .chunk 0 100,
+     .close 2] = true := by decide
+
+/- … and what their callers get: the value for the earlier call although a call of another
+    method was serialized and its reply deserialized in between -/
+set_option maxRecDepth 8000 in
+example : ((ThriftShared.comp.modelTrace [⟨[112], false, []⟩, ⟨[102], true, [1, 3]⟩]
+    [.call 0 1 0 .nil, .call 1 0 1 .nil, .answer 1 (.result .nil), .chunk 1 100,
+     .answer 0 (.result (.cons 0 (.i32 (-7)) .nil)), .chunk 0 3, .chunk 0 100]).map (·.2)).drop 3
+    = [.out (some .none_), .frame (replyBytes [102] (.result (.cons 0 (.i32 (-7)) .nil))),
+       .out none, .out (some (.val (.i32 (-7))))] := by decide
 
 end Scales.ThriftCodec
